@@ -124,6 +124,23 @@ def numeric_oracle(args):
     perm = np.random.default_rng(len(gates) * 7919 + n).permutation(len(obs))
     obs, ops = [obs[i] for i in perm], [ops[i] for i in perm]
     par = StrongSimParams(obs, num_traj=args.get("num_traj", 1), get_state=True, threshold=1e-13, max_bond_dim=64, show_progress=False)
+    if args.get("used_before"):
+        # history: the same parameter object (and its observables) served a NOISY run of another circuit with several trajectories
+        from qiskit import QuantumCircuit
+
+        from mqt.yaqs.core.data_structures.networks import MPS as _MPS
+        from mqt.yaqs.core.data_structures.noise_model import NoiseModel
+
+        prev = QuantumCircuit(n)
+        for q in range(n):
+            prev.ry(0.9 + 0.2 * q, q)
+        for q in range(n - 1):
+            prev.cx(q, q + 1)
+        nm = NoiseModel([{"name": "pauli_x", "sites": [q], "strength": 0.4} for q in range(n)])
+        par.get_state = False  # a noisy run cannot return a state
+        with common.time_limit(240):
+            simulator.run(_MPS(n, state="x+"), prev, par, nm, parallel=False)
+        par.get_state = True
     with common.time_limit(240):
         simulator.run(mps, qc, par, None, parallel=False)
     out = dense.mps_dense(par.output_state)
@@ -134,7 +151,8 @@ def numeric_oracle(args):
         got = float(np.real(np.ravel(o.results)[-1]))
         want = dense.expect(ref, op)
         if abs(got - want) > 1e-6:
-            return f"<{o.gate.name}> on site(s) {o.sites} is {got:.8f}, exact value {want:.8f}"
+            return (f"<{o.gate.name}> on site(s) {o.sites} is {got:.8f}, exact value {want:.8f}"
+                    + (" (parameter object used before for a noisy run)" if args.get("used_before") else ""))
     if par.num_traj != args.get("num_traj", 1):
         return f"num_traj changed from {args.get('num_traj', 1)} to {par.num_traj}"
     return None
@@ -300,6 +318,7 @@ def search(ctx):
         dict(n=4, gates=[("h", [1], []), ("ry", [2], [1.1]), ("cx", [2, 1], []), ("cx", [1, 2], []), ("rzz", [1, 2], [0.4]), ("rzz", [2, 1], [0.9])], state="x+"),
     ]
     plan = list(fixed)
+    plan += [dict(fixed[2], num_traj=6, used_before=True), dict(fixed[4], num_traj=3, used_before=True)]
     # every parametrised gate of the library at angle(s) exactly zero (u2(0,0) is NOT the identity: its rotation angle is an implicit pi/2),
     # between entanglers, from two initial states; and at pi/2
     for ang in (0.0, float(np.pi / 2)):
@@ -327,6 +346,8 @@ def search(ctx):
         a = dict(n=n, gates=gates, state=st, num_traj=int(ctx.rng.choice([1, 1, 7, 100])))
         if st == "basis":
             a["basis"] = "".join(str(int(b)) for b in ctx.rng.integers(0, 2, size=n))
+        if k % 5 == 2 and a["num_traj"] in (7,):
+            a["used_before"] = True
         plan.append(a)
     for a in plan:
         try:
